@@ -161,6 +161,9 @@ def main(argv=None):
     # import the module's static metadata without importing quantem: metadata lives in vq.meta
     from vq import meta
 
+    if prop_id not in meta.META:
+        print("HARNESS ERROR: no metadata for %s (%s)" % (prop_id, meta.ERRORS.get(prop_id, "missing vq/metas entry")))
+        return 2
     info = meta.META[prop_id]
 
     # ---- replay of one file -------------------------------------------------------------------
